@@ -356,6 +356,26 @@ def kani_crate(run):
     return d
 
 
+def tree_key(run):
+    """hash of everything a harness result depends on: the checked tree's sources and manifests, the harness crate"""
+    import hashlib
+    h = hashlib.sha1()
+    roots = [os.path.join(run.repo, "packages"), os.path.join(run.root, "kani")]
+    files = [os.path.join(run.repo, "Cargo.toml"), os.path.join(run.repo, "Cargo.lock")]
+    for r in roots:
+        for dp, dn, fn in os.walk(r):
+            dn[:] = sorted(x for x in dn if x not in ("target", ".git"))
+            for f in sorted(fn):
+                if f.endswith((".rs", ".toml", ".in", ".lock")):
+                    files.append(os.path.join(dp, f))
+    for f in files:
+        try:
+            h.update(f.encode() + b"\0" + open(f, "rb").read() + b"\0")
+        except OSError:
+            pass
+    return h.hexdigest()[:20]
+
+
 def kani_cmd(args, cwd, timeout):
     """cargo kani under an address-space limit and a wall-clock limit"""
     cmd = "ulimit -v %d; exec cargo kani %s" % (KANI_MEM_KB, " ".join(args))
@@ -417,15 +437,40 @@ def run_kani_property(run, cfg):
         return None
     d = kani_crate(run)
     names = [h["name"] for h in hs]
-    args = ["--lib", "--exact", "-Z", "stubbing"] + sum([["--harness", n] for n in names], []) + ["-j", "16", "--output-format", "terse"]
-    rc, so, se, wall = kani_cmd(args, d, cfg.get("kani_timeout", 3000))
-    open(os.path.join(run.build, "kani.terse.txt"), "w").write(so + "\n-----\n" + se)
-    if rc == 124:
-        return "kani timed out"
-    if "error: could not compile" in se or "error[E" in se:
-        raise Undecided("the harness crate does not compile against this tree (API drift?):\n" + "\n".join(
-            l for l in se.split("\n") if l.startswith("error"))[:1500])
-    res = parse_terse(so)
+    # Results of harnesses that PASSED are reused when nothing they depend on has changed: the key is a hash of every
+    # source / manifest file of the tree being checked plus the harness sources.  (C01, C02 and C03 share one harness
+    # set.)  Failing or missing harnesses are always re-run.
+    key = tree_key(run)
+    cdir = os.path.join(run.root, "build", "kani-cache")
+    os.makedirs(cdir, exist_ok=True)
+    cpath = os.path.join(cdir, key + ".json")
+    cache = {}
+    if os.path.exists(cpath) and not os.environ.get("VERIF_NO_CACHE"):
+        try:
+            cache = json.load(open(cpath))
+        except Exception:
+            cache = {}
+    todo = [n for n in names if n not in cache]
+    res = {n: dict(cache[n], cached=True) for n in names if n in cache}
+    for n in res:
+        res[n]["covers"] = tuple(res[n]["covers"])
+    wall = 0.0
+    if todo:
+        args = ["--lib", "--exact", "-Z", "stubbing"] + sum([["--harness", n] for n in todo], []) + ["-j", "16", "--output-format", "terse"]
+        rc, so, se, wall = kani_cmd(args, d, cfg.get("kani_timeout", 3000))
+        open(os.path.join(run.build, "kani.terse.txt"), "w").write(so + "\n-----\n" + se)
+        if "error: could not compile" in se or "error[E" in se or "Failed to match the following harness" in se:
+            raise Undecided("the harness crate does not compile against this tree (API drift?):\n" + "\n".join(
+                l for l in se.split("\n") if l.startswith("error"))[:1500])
+        fresh = parse_terse(so)
+        res.update(fresh)
+        for n, r in fresh.items():
+            if r["status"] == "SUCCESSFUL" and r["covers"][0] == r["covers"][1]:
+                cache[n] = r
+        json.dump(cache, open(cpath, "w"))
+        if rc == 124 and not all(n in res and res[n]["status"] for n in todo):
+            missing = [n for n in todo if n not in res or not res[n]["status"]]
+            run.notes.append("kani timed out on: " + ", ".join(missing))
     run.backends.setdefault("kani/cbmc", {"version": "kani 0.68.0 / cbmc 6.11 (cadical)", "solver_seconds": 0.0, "wall_seconds": 0.0})
     run.backends["kani/cbmc"]["wall_seconds"] += wall
     undecided = None
@@ -439,7 +484,7 @@ def run_kani_property(run, cfg):
         ok = r["status"] == "SUCCESSFUL" and r["covers"][0] == r["covers"][1]
         if r["covers"][1] < h.get("min_covers", 1):
             undecided = undecided or ("vacuity guard: harness %s has %d cover properties, expected at least %d" % (n, r["covers"][1], h.get("min_covers", 1)))
-        entry = {"harness": n, "bound": h["bound"], "complete": bool(h.get("complete")), "checks": r["checks"],
+        entry = {"harness": n, "bound": h["bound"], "complete": bool(h.get("complete")), "checks": r["checks"], "reused_from_identical_tree": bool(r.get("cached")),
                  "covers_satisfied": "%d/%d" % r["covers"], "ok": ok, "seconds": r["time"], "what": h.get("what", "")}
         if h.get("complete"):
             run.obligations.append((n + " [complete: loop-free, full-domain]", "kani/cbmc", ok, r["time"]))
